@@ -489,10 +489,22 @@ func tlsMitmUnit(libIsClient bool) harness.Unit {
 // Whatever was cached, evicted or resumed before, a connection completes exactly when the answering
 // server's certificates are valid for the requested name (i == j): resumption must never stand in
 // for verification of another identity.
-func cacheHistoryUnit(capacity, depth int) harness.Unit {
-	return harness.Unit{Name: fmt.Sprintf("client-cache-histories/cap%d/depth%d", capacity, depth), Run: func(c *harness.Ctx) {
+func cacheHistoryUnit(capacity, depth int) harness.Unit { return cacheHistoryUnitS(capacity, depth, 0) }
+
+// spelling: how the application writes the two host names (0 lower case, 1 both in mixed case,
+// 2 the first in mixed case only, 3 two spellings of the FIRST host)
+func cacheHistoryUnitS(capacity, depth, spelling int) harness.Unit {
+	name := fmt.Sprintf("client-cache-histories/cap%d/depth%d", capacity, depth)
+	if spelling != 0 {
+		name += fmt.Sprintf("/spelling%d", spelling)
+	}
+	return harness.Unit{Name: name, Run: func(c *harness.Ctx) {
 		p := tlsk.Get()
-		names := []string{tlsk.ServerName, "other.example.test"}
+		names := [][]string{{tlsk.ServerName, "other.example.test"}, {"Server.Example.Test", "Other.Example.Test"}, {"Server.Example.Test", "other.example.test"}, {"Server.Example.Test", "SERVER.example.test"}}[spelling]
+		host := []int{0, 1}
+		if spelling == 3 {
+			host = []int{0, 0}
+		}
 		mkServers := func() []*gmtls.Config {
 			var out []*gmtls.Config
 			for j, certs := range [][]gmtls.Certificate{{p.Sign, p.Enc}, {p.SignWrongName, p.EncWrongName}} {
@@ -512,20 +524,20 @@ func cacheHistoryUnit(capacity, depth int) harness.Unit {
 			cache := gmtls.NewLRUClientSessionCache(capacity)
 			hist := ""
 			c.Add("evaluations", 1)
-			c.DistinctS("nontrivial", fmt.Sprintf("cache-history/%d/%d", capacity, code))
+			c.DistinctS("nontrivial", fmt.Sprintf("cache-history/%d/%d/%d", capacity, spelling, code))
 			for x, i := code, 0; i < depth; i, x = i+1, x/4 {
 				ni, sj := x%2, (x/2)%2
 				if i > 0 {
 					hist += "; "
 				}
-				hist += fmt.Sprintf("connect(name %d, server %d)", ni, sj)
+				hist += fmt.Sprintf("connect(%q, server %d)", names[ni], sj)
 				cc := &gmtls.Config{GMSupport: &gmtls.GMSupport{}, RootCAs: p.Roots, ServerName: names[ni], Time: tlsk.FixedTime, Rand: wire.NewRand(byte(80 + i)), ClientSessionCache: cache}
 				o := run(cc, servers[sj], nil)
 				tag := fmt.Sprintf("client cache capacity %d, history [%s]", capacity, hist)
 				if crashOf(c, "both", "client-cache-history", tag, o) {
 					break
 				}
-				want := ni == sj
+				want := host[ni] == sj
 				if o.C.Complete != want {
 					if want {
 						c.Violate("cache-history:genuine-server-refused", fmt.Sprintf("[%s] the last connection fails although the server is certified for the requested name: %s", tag, o.Describe()), nil, tag)
@@ -574,6 +586,9 @@ var Prop = &harness.Prop{
 			chd = 5
 		}
 		u = append(u, cacheHistoryUnit(1, chd), cacheHistoryUnit(2, chd))
+		for sp := 1; sp <= 3; sp++ {
+			u = append(u, cacheHistoryUnitS(1, chd, sp), cacheHistoryUnitS(2, chd-1, sp))
+		}
 		for _, s := range suites {
 			u = append(u, refServerUnit(s), refClientUnit(s))
 			for p := 0; p < 8; p++ {
